@@ -306,7 +306,7 @@ const client = "c11app"
 
 func newRig() *rig.Rig {
 	cfg := rig.DefaultConfig()
-	cfg.Clients[client] = &refstore.Client{ID: client, Redirects: uris, AppType: op.ApplicationTypeNative, Method: oidc.AuthMethodNone, Dev: true,
+	cfg.Clients[client] = &refstore.Client{ID: client, Redirects: allRedirects(), AppType: op.ApplicationTypeNative, Method: oidc.AuthMethodNone, Dev: true,
 		RespTypes: []oidc.ResponseType{oidc.ResponseTypeCode, oidc.ResponseTypeIDTokenOnly, oidc.ResponseTypeIDToken},
 		Grants:    []oidc.GrantType{oidc.GrantTypeCode, oidc.GrantTypeImplicit}}
 	return rig.MustNew(rig.Opts{Cfg: cfg})
@@ -683,6 +683,8 @@ func TestCheck(t *testing.T) {
 		},
 	})
 	lap("http")
+	// --- redirect-URI shape family as a product (shapes_test.go) ---------------
+	runShapeParts(c, lap)
 	// --- part 4: histories (history_test.go) ---------------------------------
 	runHistoryParts(c)
 	lap("history")
